@@ -11,6 +11,11 @@ CHECKS = {
         text="Exploration: randomly generated well-typed expressions (all 12 numeric kinds, strings, collections, structs, nil-safe chains, nested closures, logging calls) over generated environment values are compiled (typed / untyped / Eval, optimiser on and off) and compared with an independently written big-step reference evaluator on value, failure and environment-call log. Finds wrong code generation for shapes and values the example table lacks; does not prove absence.",
         note="Trusted: the reference evaluator (harness/core/refeval.go, written from docs/Language-Definition.md and Go semantics), the printer, rapid. Known-finding regions are excluded by construction and counted.",
         ref="4/C01"),
+    "C02": dict(
+        technique="property-based testing (rapid), differential oracle: one rewrite-biased generated source compiled as Optimize(true)+ConstExpr marks / Optimize(true) / Optimize(false) and run on generated environments; results compared with Equiv; compile-time rejections judged against a reference constant evaluator",
+        text="Exploration: generated well-typed expressions biased to the five optimiser rewrites (constant arithmetic at any depth incl. call arguments and overflow, literal arrays, membership in literal arrays/ranges with left operands of every admitted static type, constant ranges of size 0/1/descending/1e3/around 1e6, pure calls under drawn ConstExpr marks incl. variadic nil arguments, operator overloads on built-in types) plus a control group; the three programs must all fail or all return equal values on each environment value; the optimiser may reject only constant integer division/modulo by zero; a ConstExpr mark may only move a failing constant call to compile time.",
+        note="Trusted: Equiv, the constant evaluator core/constfold.go, purity of the harness functions. Budget failures on one side only are incomparable (counted). Open findings F09 (in-range rewrite ignores operand type) and F26 (int type claimed for arithmetic with a dynamic operand) are excluded by construction and replayed.",
+        ref="4/C02"),
     "C10": dict(
         technique="bounded exhaustive enumeration of (parent kind, child slot, child kind) triples + rapid random ast.Node trees against a reflection-based child enumerator; replacement visitors; Patch differential (41->42) end to end",
         text="Exploration, exhaustive over all single-edge shapes: every node kind in every child slot of every parent kind (optional slots absent/present, lists of length 0-3), each with and without a replacing visitor on Enter and on Exit; random deep trees; parsed and optimised trees of generated programs; and a differential between Compile(src, Patch(41->42)) and Compile(src with 42) with the literal at drawn positions.",
